@@ -3,7 +3,7 @@ import itertools
 from ..driver import Part
 from .. import common as C
 
-COQ_FILES = ["Agent.v", "AgentProofs.v", "ClusterNet.v", "ClusterNetProofs.v", "ClusterNetExec.v", "PropsClusterNet.v"]
+COQ_FILES = ["Agent.v", "AgentProofs.v", "ClusterNet.v", "ClusterNetProofs.v", "ClusterNetExec.v", "PropsClusterNet.v", "StaggerExec.v"]
 THEOREMS = ["C19_activate_refuses_known_or_unhostable", "C19_activate_spawns_one_on_selected",
             "C19_views_agree_after_delivery", "C19_joiner_learns_all",
             "C19_deactivate_removes_everywhere_and_stops", "C19_leave_purges_hosted",
@@ -330,4 +330,64 @@ class Net(Part):
         return out
 
 
-PARTS = [Net()]
+class Stagger(Part):
+    """a join that spreads: the existing members are told one after the other, activations in between; judged at the
+    end, when everybody has been told and the network is quiet (no model run: ClusterNet.v covers quiescent histories)"""
+    name = "stagger"
+    family = "cluster19"
+    exec_module = "StaggerExec"
+    branch_names = {3: "three_members", 4: "four_members"}
+
+    def generate(self, rng, tier):
+        cases = []
+        # members 0..m-1 joined; node m joins; the order in which the old members are told; an activation issued by
+        # member `who` (hosted where `sel` says) after the first `cut` of them have been told
+        for m in (2, 3):
+            olds = list(range(m))
+            for order in itertools.permutations(olds):
+                for cut in range(1, m):
+                    for who in olds:
+                        for sel in range(m):
+                            for lazy in (False, True):
+                                ops = [["join", i] for i in olds]
+                                ops.append(["join_to", m, list(order[:cut]) + [m]])
+                                ops.append(["activate", who, 0, "1", sel])
+                                for r in order[cut:]:
+                                    ops.append(["join_to", m, [r]])
+                                kinds = [[0] for _ in olds] + [[1]]
+                                c = {"kinds": kinds, "ops": ops}
+                                if lazy:
+                                    c["lazy"] = True
+                                cases.append({"input": c, "class": "join_spreads_m%d" % m})
+        if tier == "quick":
+            cases = cases[::2] if len(cases) > 120 else cases
+        return cases
+
+    def to_coq(self, inp, obs):
+        expect, views = [], []
+        if isinstance(obs, list) and len(obs) == len(inp["ops"]) and obs and not any(o.get("err") for o in obs):
+            nkeys = len(obs[-1]["nodes"][0]["byid"]) if obs[-1]["nodes"] else 0
+            expect = [0] * nkeys
+            ki = {}
+            for o, ob in zip(inp["ops"], obs):
+                if o[0] == "activate":
+                    k = (o[2], o[3])
+                    ki.setdefault(k, len(ki))
+                    if ob.get("res"):
+                        expect[ki[k]] = ob["res"]["host"] + 1
+            views = [[h + 1 for h in n["byid"]] for n in obs[-1]["nodes"]]
+        return "{| c_expect := %s; c_views := %s |}" % (
+            C.clist([C.cnat(x) for x in expect]), C.clist([C.clist([C.cnat(x) for x in v]) for v in views]))
+
+    def shrink(self, inp):
+        out = []
+        ops = inp["ops"]
+        for i in range(len(ops)):
+            if ops[i][0] == "activate" and sum(1 for o in ops if o[0] == "activate") > 1:
+                out.append(dict(inp, ops=ops[:i] + ops[i + 1:]))
+        if inp.get("lazy"):
+            out.append({k: v for k, v in inp.items() if k != "lazy"})
+        return out
+
+
+PARTS = [Net(), Stagger()]
